@@ -172,8 +172,8 @@ func c14ToolCalls(extraFrag bool) {
 		for j := 0; j < nf; j++ {
 			a := vsymStr("a")
 			idMax := 2
-			if vtier() == 0 && i != 1 {
-				idMax = 1
+			if (vtier() == 0 || extraFrag) && i != 1 {
+				idMax = 1 // the four-fragment family keeps the smaller id range in both tiers (it does not finish otherwise)
 			}
 			tc := ToolCall{ID: c14Small[vrange("id", 0, idMax)], Function: FunctionCall{Arguments: a}}
 			if i == 0 && j == 0 {
